@@ -14,3 +14,5 @@ INVARIANT H_Bound
 INVARIANT H_Order
 INVARIANT H_ReaderOrder
 INVARIANT H_Dispose
+INVARIANT H_Release
+INVARIANT L_ReleaseOnError
